@@ -2,6 +2,9 @@ package c09
 
 import (
 	"fmt"
+
+	lindbkv "github.com/lindb/lindb/kv"
+	"github.com/lindb/lindb/kv/version"
 	"math/rand"
 	"sort"
 	"strconv"
@@ -277,6 +280,18 @@ func (r *runner) iflushcrash(shard, k int) {
 	r.recovered(op)
 }
 
+// iflushimg: the real index Flush of one shard; the process dies just before its (j+1)-th family commit.
+func (r *runner) iflushimg(shard, j int) {
+	op := fmt.Sprintf("iflushimg %d %d", shard, j)
+	out := r.guard(op, func() string { return okOut(r.s.indexFlushImage(shard, j)) })
+	if out != "ok" {
+		r.err = fmt.Errorf("%s: %s", op, out)
+		return
+	}
+	r.c.Branch(fmt.Sprintf("crash-before-index-commit-%d", j))
+	r.recovered(op)
+}
+
 // recovered: the node was reopened (or recovered from a crash image). Every name known before is
 // looked up (lookup-only calls, mirrored to the model): a name that is found must have its old id;
 // ids that recovered index entries still use are remembered for the freshness check.
@@ -387,6 +402,8 @@ func schemaFind(sc, kind, name string) (uint32, bool) {
 const nWitness = 6
 
 func (area) Run(c *core.Ctx) error {
+	// every kv store opened from now on reports its edit-log commits (crash images inside a real Flush)
+	lindbkv.VerifInstallCommitHook(func(storePath, family string, _ version.FamilyID, _ []version.Log) { onCommit(storePath, family) })
 	for i := 0; i < c.N; i++ {
 		if !c.Want(i) {
 			continue
@@ -414,6 +431,10 @@ func (area) Run(c *core.Ctx) error {
 			err = witnessFailedFlush(c, db)
 		case 8:
 			err = witnessSchemaCacheRace(c, db)
+		case 9, 10, 11, 12:
+			err = witnessIndexCommitCrash(c, db, i-9)
+		case 13:
+			err = witnessBucketCacheRace(c, db)
 		default:
 			err = randomCase(c, rng, db)
 		}
@@ -536,7 +557,11 @@ func randomCase(c *core.Ctx, rng *rand.Rand, db string) error {
 			if rng.Intn(2) == 0 {
 				r.iprepare(sh)
 			}
-			r.iflushcrash(sh, rng.Intn(5))
+			if rng.Intn(2) == 0 {
+				r.iflushcrash(sh, rng.Intn(5))
+			} else {
+				r.iflushimg(sh, rng.Intn(4))
+			}
 		}
 	}
 	// rare region: run one metric into the tag-key / field limits
